@@ -7,36 +7,50 @@ formulas parse to their element counts.
        reproduce a defect ("trunc" printer, "overwrite" formula reader, "dict"
        totals) must be rejected.
 (S->C) spec/Gen_C14 emits every case of the bounded families with the abstract
-       result computed by TLC (names + coefficients in thousandths, Balanced,
-       element counts); each is run through the real Reaction.to_string /
-       from_string / pmutt.io.ring.read_reactions / check_element_balance /
-       parse_formula and the discrete projection is compared by equality.
+       result computed by TLC (names + coefficients in millionths, Balanced,
+       element counts); each is run through the real to_string / from_string /
+       pmutt.io.ring.read_reactions / check_element_balance / parse_formula of
+       Reaction, ChemkinReaction and SurfaceReaction (rotating) and the discrete
+       projection is compared by equality.
 (C->S) those runs plus random cases drawn from the property's quantifier are
        recorded as NDJSON and judged line by line by spec/Trace_RxnString.tla.
 
 Python only builds inputs, calls the library and projects what it saw (text ->
 character codes, float -> text of repr); every relation is evaluated by TLC.
+The random generators force, in rotation, every documented option, format,
+delimiter, class, container type and name class (see notes/C14.md, Quantifier
+audit); Trace_RxnString.tla counts the situations it actually met and a zero
+count is a machinery failure.
 """
 import concurrent.futures as cf
 import json
 import os
 import random
 import re
+import shutil
 import string
 import tempfile
 import warnings
 from decimal import Decimal
+from fractions import Fraction
 
 from harness import core
 from harness.core import to_dec_exact
 
 NAME_FIRST = string.ascii_letters + '()*_'
 NAME_REST = NAME_FIRST + string.digits
+# the five documented delimiters ('+', '=', '<=>', '.', '>>'), the same with surrounding blanks
+# ("Leading and trailing spaces will be trimmed"), and custom ones
 DELIM_PAIRS = [('+', '='), ('+', '<=>'), ('.', '>>'), (' ; ', '<=>'), ('|', '->'), ('+', ' = '),
-               (',', '=>'), (' + ', ' = '), ('&', '<->'), ('+', '>>'), (' . ', ' >> '), (';', ':')]
+               (',', '=>'), (' + ', ' = '), ('&', '<->'), ('+', '>>'), (' . ', ' >> '), (';', ':'),
+               (' + ', ' <=> '), ('.', '=')]
+BLANK_PAIRS = [(' + ', ' = '), (' + ', ' <=> '), (' . ', ' >> '), (' ; ', ' -> '), (' + ', ' >> ')]
+FORMATS = ['.0f', '.1f', '.2f', '.3f', '.4f', '.5f', '.6f', 'f', 'g', '.2g', '.3g', '.4g', '']
+CLASSES = ['Reaction', 'ChemkinReaction', 'SurfaceReaction']
 ELEMENT_SYMBOLS = ['H', 'He', 'C', 'N', 'O', 'F', 'Na', 'Mg', 'Al', 'Si', 'P', 'S', 'Cl', 'K', 'Ca',
                    'Fe', 'Co', 'Ni', 'Cu', 'Zn', 'Pt', 'Pd', 'Au', 'Ag', 'Os', 'B', 'Br', 'I', 'W', 'U']
 _NUMERAL = re.compile(r'^\d{1,9}(\.\d{0,18})?$')
+MILLION = 1000000
 
 
 def codes(s):
@@ -61,20 +75,41 @@ def fx_to_str(fx):
     return s + '0' if s.endswith('.') else s
 
 
-def thousandths(x):
-    d = Decimal(repr(float(x))) * 1000
+def millionths(x):
+    d = Decimal(repr(float(x))) * MILLION
     return int(d) if d == d.to_integral_value() else str(d)
 
 
-def _species(names, elements=None):
-    from pmutt.statmech import StatMech
-    return {n: StatMech(name=n, elements=(elements or {}).get(n)) for n in names}
+def _alias(name):
+    """the value of the second key attribute (smiles) of a species: another token of the name alphabet"""
+    return 'k' + name[::-1] + '_'
 
 
-def _proj(rx):
-    """Reaction -> names and coefficients as they are."""
+def _species(names, elements=None, no_comp=()):
+    """name -> species object with .name, .phase (ChemkinReaction needs it), .elements, .smiles"""
+    from pmutt.empirical import EmpiricalBase
+    out = {}
+    for n in names:
+        el = None if n in no_comp else (elements or {}).get(n)
+        out[n] = EmpiricalBase(name=n, phase='G', elements=el, smiles=_alias(n))
+    return out
+
+
+def _class(name):
+    if name == 'ChemkinReaction':
+        from pmutt.reaction import ChemkinReaction
+        return ChemkinReaction
+    if name == 'SurfaceReaction':
+        from pmutt.omkm.reaction import SurfaceReaction
+        return SurfaceReaction
+    from pmutt.reaction import Reaction
+    return Reaction
+
+
+def _proj(rx, key='name'):
+    """reaction object -> names and coefficients as they are."""
     def side(sp, st):
-        return [[s.name, float(c)] for s, c in zip(sp, st)]
+        return [[getattr(s, key), float(c)] for s, c in zip(sp, st)]
     has_ts = rx.transition_state is not None
     return {'re': side(rx.reactants, rx.reactants_stoich),
             'pr': side(rx.products, rx.products_stoich),
@@ -88,7 +123,7 @@ def _proj_ev(p):
 
 
 def _proj_units(p):
-    return {k: ([[n, thousandths(c)] for n, c in p[k]] if k != 'hasTS' else p[k])
+    return {k: ([[n, millionths(c)] for n, c in p[k]] if k != 'hasTS' else p[k])
             for k in ('re', 'pr', 'ts', 'hasTS')}
 
 
@@ -105,18 +140,28 @@ def _pad(text, spd, rxd, pad):
     return ' ' * e + text + ' ' * e
 
 
-def _parse_event(text, spd, rxd, species, strict, src):
-    from pmutt.reaction import Reaction
+def _parse_event(text, spd, rxd, species, src, cls='Reaction', strict=True, warn=True, spform='dict',
+                 key='name', notes=None):
+    """One from_string call.  `species` maps the lookup key to the object; it is handed over as a
+    dict or (key 'name' only) as a list."""
+    klass = _class(cls)
     ev = {'ev': 'parse', 'text': codes(text), 'spd': codes(spd), 'rxd': codes(rxd),
-          'known': [codes(n) for n in sorted(species)], 'strict': bool(strict), 'src': src,
+          'known': [codes(n) for n in sorted(species)], 'strict': bool(strict), 'warn': bool(warn),
+          'src': src, 'cls': cls, 'spform': spform,
           'ok': False, 're': [], 'pr': [], 'ts': [], 'hasTS': False, 'err': [], 'warns': []}
+    arg = list(species.values()) if spform == 'list' else dict(species)
+    kw = {'species_delimiter': spd, 'reaction_delimiter': rxd}
+    if notes is not None:
+        kw['notes'] = notes
+    if cls == 'Reaction':
+        kw['raise_error'] = strict
+        kw['raise_warning'] = warn
     got = None
     with warnings.catch_warnings(record=True) as w:
         warnings.simplefilter('always')
         try:
-            rx = Reaction.from_string(text, dict(species), species_delimiter=spd,
-                                      reaction_delimiter=rxd, raise_error=strict)
-            got = _proj(rx)
+            rx = klass.from_string(text, arg, **kw)
+            got = _proj(rx, key)
         except core.MachineryError:
             raise
         except Exception as ex:
@@ -128,16 +173,20 @@ def _parse_event(text, spd, rxd, species, strict, src):
     return ev, got
 
 
-def _ring_event(lines, spd, rxd, species):
+def _ring_event(lines, spd, rxd, species, strict=True, warn=True):
     from pmutt.io.ring import read_reactions
     ev = {'ev': 'ring', 'lines': [codes(ln) for ln in lines], 'spd': codes(spd), 'rxd': codes(rxd),
-          'known': [codes(n) for n in sorted(species)], 'ok': False, 'err': [], 'rxns': []}
+          'known': [codes(n) for n in sorted(species)], 'strict': bool(strict), 'warn': bool(warn),
+          'ok': False, 'err': [], 'rxns': []}
     fd, path = tempfile.mkstemp(prefix='c14_ring_', suffix='.txt')
     with os.fdopen(fd, 'w') as f:
         f.write('\n'.join(lines) + '\n')
     got = None
     try:
-        rxns = read_reactions(path, dict(species), species_delimiter=spd, reaction_delimiter=rxd)
+        with warnings.catch_warnings():
+            warnings.simplefilter('ignore')
+            rxns = read_reactions(path, dict(species), species_delimiter=spd, reaction_delimiter=rxd,
+                                  raise_error=strict, raise_warning=warn)
         got = [_proj(rx) for rx in rxns.reactions]
     except core.MachineryError:
         raise
@@ -155,43 +204,83 @@ def _ring_lines(text):
     return ['RING reaction list', text, '', 'pathway 12 of species list']
 
 
+def _stoich_type(r, stype):
+    """'int' only applies when every coefficient of the reaction is integral"""
+    if stype == 'int' and not all(float(c) == int(float(c)) for k in ('re', 'ts', 'pr') for _, c in r[k]):
+        return 'float'
+    return stype
+
+
+def _stoich(vals, stype):
+    """the stoichiometry container handed to the constructor"""
+    vals = [float(v) for v in vals]
+    if stype == 'int':
+        return [int(v) for v in vals]
+    if stype == 'numpy':
+        import numpy as np
+        return np.array(vals)
+    if stype == 'npscalar':
+        import numpy as np
+        return [np.float64(v) for v in vals]
+    if stype == 'tuple':
+        return tuple(vals)
+    return vals
+
+
 # --------------------------------------------------------------------------
 # execution of one case against the real library
 # --------------------------------------------------------------------------
 def _exec_print(case):
-    from pmutt.reaction import Reaction
     r = case['r']
-    spd, rxd, d = case['spd'], case['rxd'], case['d']
+    spd, rxd, fmt = case['spd'], case['rxd'], case['fmt']
     inc_ts = case.get('incTS', True)
+    cls = case.get('cls', 'Reaction')
+    key = case.get('key', 'name')
+    stype = _stoich_type(r, case.get('stype', 'float'))
+    via = case.get('via', 'to_string')
     names = sorted({n for k in ('re', 'ts', 'pr') for n, _ in r[k]})
     sp = _species(names)
     has_ts = bool(r['ts'])
 
+    def shown(n):
+        return getattr(sp[n], key)
+
     def side(k):
-        return [sp[n] for n, _ in r[k]], [float(c) for _, c in r[k]]
+        return [sp[n] for n, _ in r[k]], _stoich([c for _, c in r[k]], stype)
 
     def side_ev(k):
-        return [[codes(n), codes(num_repr(float(c)))] for n, c in r[k]]
+        return [[codes(shown(n)), codes(num_repr(float(c)))] for n, c in r[k]]
     (re_s, re_c), (pr_s, pr_c), (ts_s, ts_c) = side('re'), side('pr'), side('ts')
-    rxn = Reaction(reactants=re_s, reactants_stoich=re_c, products=pr_s, products_stoich=pr_c,
-                   transition_state=ts_s if has_ts else None,
-                   transition_state_stoich=ts_c if has_ts else None)
+    kw = {}
+    if case.get('notes') is not None:
+        kw['notes'] = case['notes']
+    rxn = _class(cls)(reactants=re_s, reactants_stoich=re_c, products=pr_s, products_stoich=pr_c,
+                      transition_state=ts_s if has_ts else None,
+                      transition_state_stoich=ts_c if has_ts else None, **kw)
     ev = {'ev': 'print', 're': side_ev('re'), 'pr': side_ev('pr'), 'ts': side_ev('ts'),
-          'hasTS': has_ts, 'incTS': bool(inc_ts), 'spd': codes(spd), 'rxd': codes(rxd), 'd': d,
-          'space': bool(case['space']), 'raised': False, 'out': []}
+          'hasTS': has_ts, 'incTS': bool(inc_ts), 'spd': codes(spd), 'rxd': codes(rxd), 'fmt': codes(fmt),
+          'space': bool(case['space']), 'cls': cls, 'key': key, 'stype': stype, 'via': via,
+          'raised': False, 'out': []}
     mism = []
     try:
-        out = rxn.to_string(species_delimiter=spd, reaction_delimiter=rxd, stoich_format='.%df' % d,
-                            stoich_space=bool(case['space']), include_TS=inc_ts)
+        if via == 'str':
+            out = str(rxn)
+        else:
+            out = rxn.to_string(species_delimiter=spd, reaction_delimiter=rxd, stoich_format=fmt,
+                                stoich_space=bool(case['space']), include_TS=inc_ts, key=key)
     except Exception as ex:
         ev['raised'] = True
         return [ev], [{'raised': _err_text(ex), 'call': 'to_string'}]
     ev['out'] = codes(out)
     padded = _pad(out, spd, rxd, case['pad'])
-    pev, got = _parse_event(padded, spd, rxd, sp, True, 'printed')
+    lookup = {shown(n): sp[n] for n in names}
+    pev, got = _parse_event(padded, spd, rxd, lookup, 'printed', cls=cls,
+                            spform=case.get('spform', 'dict') if key == 'name' else 'dict', key=key,
+                            notes=case.get('notes'))
     events = [ev, pev]
     rgot = None
-    if case.get('ring'):
+    ring = case.get('ring') and key == 'name'
+    if ring:
         rev, rgot = _ring_event(_ring_lines(padded), spd, rxd, sp)
         events.append(rev)
     exp = case.get('expect')
@@ -201,7 +290,7 @@ def _exec_print(case):
         elif _proj_units(got) != exp:
             mism.append({'call': 'to_string+from_string', 'text': out, 'expected': exp,
                          'got': _proj_units(got)})
-        if case.get('ring') and (rgot is None or [_proj_units(g) for g in rgot] != [exp]):
+        if ring and (rgot is None or [_proj_units(g) for g in rgot] != [exp]):
             mism.append({'call': 'read_reactions', 'text': padded, 'expected': [exp],
                          'got': None if rgot is None else [_proj_units(g) for g in rgot]})
     return events, mism
@@ -211,9 +300,12 @@ def _exec_hand(case):
     text, spd, rxd = case['text'], case['spd'], case['rxd']
     names = case['names']
     missing = case.get('missing')
-    strict = case.get('strict', True)
+    cls = case.get('cls', 'Reaction')
+    strict = case.get('strict', True) or cls != 'Reaction'
+    warn = case.get('warn', True) or cls != 'Reaction'
     sp = _species([n for n in names if n != missing])
-    pev, got = _parse_event(text, spd, rxd, sp, strict, 'hand')
+    pev, got = _parse_event(text, spd, rxd, sp, 'hand', cls=cls, strict=strict, warn=warn,
+                            spform=case.get('spform', 'dict'), notes=case.get('notes'))
     events = [pev]
     mism = []
     rgot = None
@@ -238,29 +330,41 @@ def _exec_hand(case):
 
 
 def _exec_ring(case):
-    sp = _species(case['names'])
-    rev, _ = _ring_event(case['lines'], case['spd'], case['rxd'], sp)
+    missing = case.get('missing')
+    sp = _species([n for n in case['names'] if n != missing])
+    rev, _ = _ring_event(case['lines'], case['spd'], case['rxd'], sp, strict=case.get('strict', True),
+                         warn=case.get('warn', True))
     return [rev], []
 
 
+def _count_value(n):
+    """element count as handed to the library: int, or float when written with a point"""
+    return float(n) if isinstance(n, float) else int(n)
+
+
 def _exec_balance(case):
-    from pmutt.reaction import Reaction
-    from pmutt.statmech import StatMech
+    """species = [[p, q], [[element, count], ...], has_composition]; the coefficient handed to the
+    library is the double nearest p/q."""
+    from pmutt.empirical import EmpiricalBase
+    cls = case.get('cls', 'Reaction')
 
     def side(k):
-        sps = [StatMech(name='%s%d' % (k, i), elements=dict((e, n) for e, n in comp))
-               for i, (_, comp) in enumerate(case[k])]
-        return sps, [float(c) for c, _ in case[k]]
+        sps = [EmpiricalBase(name='%s%d' % (k, i), phase='G',
+                             elements=dict((e, _count_value(n)) for e, n in comp) if has else None)
+               for i, (_, comp, has) in enumerate(case[k])]
+        return sps, [p / q for (p, q), _, _ in case[k]]
 
     def side_ev(k):
-        return [[to_dec_exact(float(c)), [[codes(e), int(n)] for e, n in comp]] for c, comp in case[k]]
+        return [[[int(p), int(q)],
+                 [[codes(e), to_dec_exact(float(n)), isinstance(n, float)] for e, n in comp] if has else [],
+                 bool(has)] for (p, q), comp, has in case[k]]
     has_ts = bool(case['hasTS'])
     (re_s, re_c), (pr_s, pr_c), (ts_s, ts_c) = side('re'), side('pr'), side('ts')
-    rxn = Reaction(reactants=re_s, reactants_stoich=re_c, products=pr_s, products_stoich=pr_c,
-                   transition_state=ts_s if has_ts else None,
-                   transition_state_stoich=ts_c if has_ts else None)
+    rxn = _class(cls)(reactants=re_s, reactants_stoich=re_c, products=pr_s, products_stoich=pr_c,
+                      transition_state=ts_s if has_ts else None,
+                      transition_state_stoich=ts_c if has_ts else None)
     ev = {'ev': 'balance', 're': side_ev('re'), 'pr': side_ev('pr'), 'ts': side_ev('ts') if has_ts else [],
-          'hasTS': has_ts, 'accepted': True, 'err': []}
+          'hasTS': has_ts, 'cls': cls, 'accepted': True, 'err': []}
     try:
         rxn.check_element_balance()
     except Exception as ex:
@@ -322,23 +426,26 @@ def _rxn_from_tlc(c, k):
     spd, rxd = uncodes(c['spd']), uncodes(c['rxd'])
     exp = _exp_from_tlc(c['expect'])
     ring = (spd == '.' and rxd == '>>') or k % 4 == 0
+    cls = CLASSES[k % 3]
+    spform = 'list' if k % 7 == 3 else 'dict'
     if c['kind'] == 'print':
         r = {s: [[uncodes(x['nm']), fx_to_str(x['co'])] for x in c['r'][s]] for s in ('re', 'ts', 'pr')}
-        return {'kind': 'print', 'src': 'tlc', 'r': r, 'd': c['d'], 'space': c['space'], 'spd': spd,
-                'rxd': rxd, 'pad': list(c['pad']), 'expect': exp, 'ring': ring}
+        return {'kind': 'print', 'src': 'tlc', 'r': r, 'fmt': '.%df' % c['d'], 'space': c['space'], 'spd': spd,
+                'rxd': rxd, 'pad': list(c['pad']), 'expect': exp, 'ring': ring, 'cls': cls, 'spform': spform,
+                'stype': ['float', 'float', 'numpy', 'int', 'npscalar'][k % 5]}
     names = sorted({n for s in ('re', 'ts', 'pr') for n, _ in exp[s]})
     case = {'kind': 'hand', 'src': 'tlc', 'text': uncodes(c['text']), 'spd': spd, 'rxd': rxd,
-            'names': names, 'expect': exp, 'ring': ring}
+            'names': names, 'expect': exp, 'ring': ring, 'cls': cls, 'spform': spform}
     if k % 5 == 1:                                   # one name taken out of the species dictionary
         case['missing'] = names[(k // 5) % len(names)]
     return case
 
 
-def _bal_from_tlc(c):
+def _bal_from_tlc(c, k):
     def side(s):
-        return [['%d.%d' % (x['co'] // 10, x['co'] % 10), [[e, n] for e, n in x['comp']]] for x in s]
+        return [[[x['co'], 10], [[e, n] for e, n in x['comp']], True] for x in s]
     return {'kind': 'balance', 'src': 'tlc', 're': side(c['re']), 'pr': side(c['pr']), 'ts': side(c['ts']),
-            'hasTS': c['hasTS'], 'balanced': c['balanced']}
+            'hasTS': c['hasTS'], 'balanced': c['balanced'], 'cls': CLASSES[k % 3]}
 
 
 def _for_from_tlc(c):
@@ -347,16 +454,44 @@ def _for_from_tlc(c):
 
 
 # --------------------------------------------------------------------------
-# random cases from the property's quantifier (C->S)
+# random cases from the property's quantifier (C->S).  Every generator takes the index i of the case:
+# i selects, in rotation, one documented option / format / delimiter / class / container / name class
+# that is FORCED for this case; everything else is drawn at random.
 # --------------------------------------------------------------------------
-def _rand_name(rnd, avoid=()):
+def _rand_name(rnd, avoid=(), extra=''):
     while True:
-        n = rnd.choice(NAME_FIRST) + ''.join(rnd.choice(NAME_REST) for _ in range(rnd.randint(0, 7)))
+        n = rnd.choice(NAME_FIRST) + ''.join(rnd.choice(NAME_REST + extra) for _ in range(rnd.randint(0, 7)))
         if n not in avoid:
             return n
 
 
-def _rand_delims(rnd):
+def _name_pool(rnd, klass, n):
+    """n distinct names of one class: 'quant' the alphabet of the quantifier; 'prefix' names that are
+    prefixes of each other (A, A2, A2_TS, ...); 'charged' realistic names with charges, hyphens and
+    delimiter characters (H+, OH-, CH3-CH2, C=O(S), Ni.CO), used with blank-surrounded delimiters."""
+    out = []
+    if klass == 'prefix':
+        base = _rand_name(rnd)[:3]
+        cand = [base, base + '2', base + '2B', base + '_TS', base + '2_TS', base + '(S)', base + '*', base + '2B3',
+                base + '_', base + '_T', base + '(S)2', base + '22']
+        rnd.shuffle(cand)
+        return cand[:n]
+    if klass == 'charged':
+        fixed = ['H+', 'OH-', 'CH3-CH2', 'C=O', 'Ni.CO', 'e-', 'Fe+3', 'SO4-2', 'CH2=CH2', 'N+(S)', 'a>>b', 'x<=>y']
+        rnd.shuffle(fixed)
+        out = fixed[:max(1, n // 2)]
+        while len(out) < n:
+            nm = _rand_name(rnd, out, extra='+-=.')
+            out.append(nm)
+        return out
+    while len(out) < n:
+        out.append(_rand_name(rnd, out))
+    return out
+
+
+def _rand_delims(rnd, force=None):
+    if force is not None:
+        return force
     if rnd.random() < 0.7:
         return rnd.choice(DELIM_PAIRS)
     alphabet = '|;,&~^:!#<=>-/+@'
@@ -369,43 +504,89 @@ def _rand_delims(rnd):
             return spd, rxd
 
 
-def _rand_coef(rnd, integers_only):
-    m = rnd.random()
-    if integers_only or m < 0.2:
-        return float(rnd.randint(1, 12))
-    if m < 0.3:
-        return 1.0
-    if m < 0.6:
-        return round(rnd.uniform(0.01, 20.0), rnd.choice([1, 2, 3, 4]))
-    if m < 0.7:
-        return rnd.choice([0.5, 0.25, 1.5, 2.5, 0.125, 0.375, 1.0 / 3.0, 2.0 / 3.0, 0.1 + 0.2, 0.7 + 0.1])
-    if m < 0.85:                        # arithmetic results next to an integer
-        n = rnd.randint(1, 12)
-        return rnd.choice([n * (1 - 2.0 ** -53), n * (1 + 2.0 ** -52), 0.1 * 3 * 10 * n / 3.0,
-                           (0.1 * n) * 10, n - 1e-12, n + 1e-12])
-    return rnd.uniform(0.01, 20.0)
+def _grey(c):
+    """numpy.isclose(c, round(c)) holds although c is not within 1e-9 of the integer: the documented
+    'close to an integer' short-cut drops real decimals there - outside the reading of the property"""
+    n = round(c)
+    return 1e-9 < abs(c - n) <= 1e-8 + 1e-5 * abs(n)
 
 
-def _random_print(rnd):
-    spd, rxd = _rand_delims(rnd)
+def _rand_coef(rnd, integers_only, exact=False):
+    while True:
+        m = rnd.random()
+        if integers_only or m < 0.2:
+            return float(rnd.choice([rnd.randint(1, 12), rnd.randint(10, 20)]))
+        if m < 0.3:
+            c = 1.0
+        elif m < 0.6:
+            c = round(rnd.uniform(0.01, 20.0), rnd.choice([1, 2, 3, 4, 5, 6]))
+        elif m < 0.7:
+            c = rnd.choice([0.5, 0.25, 1.5, 2.5, 0.125, 0.375, 1.0 / 3.0, 2.0 / 3.0, 0.1 + 0.2, 0.7 + 0.1])
+        elif m < 0.8 and not exact:               # arithmetic results next to an integer
+            n = rnd.randint(1, 12)
+            c = rnd.choice([n * (1 - 2.0 ** -53), n * (1 + 2.0 ** -52), 0.1 * 3 * 10 * n / 3.0,
+                            (0.1 * n) * 10, n - 1e-12, n + 1e-12])
+        elif m < 0.86:                            # just outside the 'close to an integer' short-cut
+            n = rnd.randint(1, 12)
+            c = round(n + rnd.choice([-1, 1]) * rnd.choice([1.3, 2, 5, 9]) * (1e-8 + 1e-5 * n), 6)
+        else:
+            c = rnd.uniform(0.01, 20.0)
+        if not _grey(c) and not (exact and c != round(c) and abs(c - round(c)) <= 1e-9):
+            return c
+
+
+PRINT_FORCE = ([('fmt', f) for f in FORMATS] + [('cls', c) for c in CLASSES]
+               + [('delims', p) for p in DELIM_PAIRS[:5] + BLANK_PAIRS[:3]]
+               + [('names', 'prefix'), ('names', 'charged'), ('ts', 1), ('ts', 2), ('via', 'str'),
+                  ('key', 'smiles'), ('stype', 'int'), ('stype', 'numpy'), ('stype', 'npscalar'),
+                  ('stype', 'tuple'), ('incTS', False), ('spform', 'list'), ('n', 4), ('notes', 'dict')])
+
+
+def _random_print(rnd, i=0):
+    what, val = PRINT_FORCE[i % len(PRINT_FORCE)]
+    f = {what: val}
+    klass = f.get('names', 'charged' if rnd.random() < 0.1 else 'prefix' if rnd.random() < 0.15 else 'quant')
+    if 'delims' in f:
+        spd, rxd = f['delims']
+        if klass == 'charged' and (spd.strip() == spd or rxd.strip() == rxd):
+            klass = 'quant'
+    elif klass == 'charged':
+        spd, rxd = rnd.choice(BLANK_PAIRS)
+    else:
+        spd, rxd = _rand_delims(rnd)
+    fmt = f.get('fmt', rnd.choice(FORMATS))
+    via = f.get('via', 'to_string')
+    key = f.get('key', 'smiles' if rnd.random() < 0.05 else 'name')
+    if via == 'str':
+        spd, rxd, fmt, key = '+', '=', '.2f', 'name'
+        klass = 'quant' if klass == 'charged' else klass
     ints = '.' in spd or '.' in rxd
-    used = set()
+    stype = f.get('stype', rnd.choice(['float', 'float', 'float', 'numpy', 'npscalar', 'tuple', 'int']))
+    if stype == 'int':
+        ints = True
+    n_re = f.get('n', rnd.randint(1, 4))
+    n_pr = rnd.randint(1, 4)
+    n_ts = f.get('ts', rnd.choice([0, 0, 0, 1, 1, 2]))
+    pool = _name_pool(rnd, klass, n_re + n_pr + n_ts)
 
     def side(n):
-        out = []
-        for _ in range(n):
-            nm = _rand_name(rnd, used)
-            used.add(nm)
-            out.append([nm, repr(_rand_coef(rnd, ints))])
-        return out
-    r = {'re': side(rnd.randint(1, 4)), 'pr': side(rnd.randint(1, 4)),
-         'ts': side(1) if rnd.random() < 0.4 else []}
-    return {'kind': 'print', 'src': 'random', 'r': r, 'd': rnd.randint(0, 3), 'space': rnd.random() < 0.5,
-            'spd': spd, 'rxd': rxd, 'pad': [rnd.randint(0, 2), rnd.randint(0, 2), rnd.randint(0, 2)],
-            'incTS': rnd.random() < 0.9, 'ring': rnd.random() < 0.25}
+        return [[pool.pop(), repr(_rand_coef(rnd, ints, exact=(fmt == '')))] for _ in range(n)]
+    r = {'re': side(n_re), 'pr': side(n_pr), 'ts': side(n_ts)}
+    pad = [rnd.randint(0, 2), rnd.randint(0, 2), rnd.randint(0, 2)]
+    notes = {'dict': {'source': 'x'}, None: None}.get(f.get('notes'), None) if 'notes' in f else \
+        rnd.choice([None, None, 'from a paper'])
+    return {'kind': 'print', 'src': 'random', 'r': r, 'fmt': fmt, 'space': rnd.random() < 0.5 and via != 'str',
+            'spd': spd, 'rxd': rxd, 'pad': pad, 'incTS': f.get('incTS', rnd.random() < 0.85) or via == 'str',
+            'ring': rnd.random() < 0.25, 'cls': f.get('cls', rnd.choice(CLASSES)), 'via': via, 'key': key,
+            'stype': stype, 'spform': f.get('spform', 'list' if rnd.random() < 0.2 else 'dict'),
+            'notes': notes, 'forced': '%s=%s' % (what, val)}
 
 
-def _rand_numeral(rnd, integers_only):
+def _rand_numeral(rnd, integers_only, force=None):
+    if force == 'one':
+        return rnd.choice(['1', '1.0', '1.', '01'])
+    if force == 'int10':
+        return str(rnd.randint(10, 30))
     m = rnd.random()
     if m < 0.25:
         return ''
@@ -418,135 +599,256 @@ def _rand_numeral(rnd, integers_only):
     return s
 
 
-def _random_hand_text(rnd, spd, rxd, n_ts=None):
+def _random_hand_text(rnd, spd, rxd, klass='quant', n_ts=None, tabs=False, force=None, n_re=None,
+                      ts_fresh=False, ts_same=False):
     ints = '.' in spd or '.' in rxd
-    pool = [_rand_name(rnd) for _ in range(4)]
-
+    pool = _name_pool(rnd, klass, 4)
     names = set()
     last = []
 
-    def side(n):
+    def blank(lo, hi):
+        k = rnd.randint(lo, hi)
+        return ''.join(rnd.choice(' \t') if tabs else ' ' for _ in range(k))
+
+    def side(n, forced=None, fresh=False):
         toks = []
         del last[:]
-        for _ in range(n):
-            nm = rnd.choice(pool) if rnd.random() < 0.5 else _rand_name(rnd)
+        for j in range(n):
+            nm = rnd.choice(pool) if (rnd.random() < 0.6 and not fresh) else _name_pool(rnd, klass, 1)[0]
+            while fresh and nm in names:
+                nm = _rand_name(rnd, names)
+            if ts_same and fresh is not None and j == 1 and len(last) == 1 and forced == 'same':
+                nm = last[0]
             names.add(nm)
             last.append(nm)
-            num = _rand_numeral(rnd, ints)
-            toks.append((num + ' ' * rnd.randint(0, 2) + nm) if num else nm)
-        return toks, None
-    states = [side(rnd.randint(1, 4))[0]]
-    ts_name = None
-    if (rnd.random() < 0.35) if n_ts is None else n_ts:
-        states.append(side(1)[0])
-        ts_name = last[0]
-    states.append(side(rnd.randint(1, 4))[0])
+            num = _rand_numeral(rnd, ints, force=forced if j == 0 else None)
+            gap = blank(1, 2) if (force == 'gap' and j == 0) else blank(0, 2)
+            toks.append((num + gap + nm) if num else nm)
+        return toks
+    states = [side(n_re or rnd.randint(1, 4), forced=force if force in ('one', 'int10') else None)]
+    ts_names = []
+    k_ts = rnd.choice([0, 0, 0, 1, 1, 2]) if n_ts is None else n_ts
+    if k_ts:
+        states.append(side(k_ts, forced='same' if ts_same else None, fresh=ts_fresh))
+        ts_names = list(last)
+    states.append(side(rnd.randint(1, 4)))
+    text = blank(0, 3) + (blank(0, 3) + rxd + blank(0, 3)).join(
+        (blank(0, 3) + spd + blank(0, 3)).join(st) for st in states) + blank(0, 3)
+    return text, sorted(names), ts_names
 
-    def sp():
-        return ' ' * rnd.randint(0, 3)
-    text = sp() + (sp() + rxd + sp()).join((sp() + spd + sp()).join(st) for st in states) + sp()
-    return text, sorted(names), ts_name
+
+HAND_FORCE = ([('cls', c) for c in CLASSES] + [('delims', p) for p in DELIM_PAIRS[:5] + BLANK_PAIRS[:3]]
+              + [('names', 'prefix'), ('names', 'charged'), ('ts', 1), ('ts', 2), ('tabs', True),
+                 ('num', 'one'), ('num', 'int10'), ('num', 'gap'), ('spform', 'list'), ('n', 4),
+                 ('miss', 'ts_warn'), ('miss', 'ts_nowarn'), ('miss', 'ts_multi'), ('miss', 'rp'),
+                 ('miss', 'ts_strict'), ('notes', 'str'), ('ts', 'merge')])
 
 
-def _random_hand(rnd):
-    spd, rxd = _rand_delims(rnd)
-    text, names, ts_name = _random_hand_text(rnd, spd, rxd)
+def _random_hand(rnd, i=0):
+    what, val = HAND_FORCE[i % len(HAND_FORCE)]
+    f = {what: val}
+    klass = f.get('names', 'charged' if rnd.random() < 0.1 else 'prefix' if rnd.random() < 0.2 else 'quant')
+    if 'delims' in f:
+        spd, rxd = f['delims']
+        if klass == 'charged' and (spd.strip() == spd or rxd.strip() == rxd):
+            klass = 'quant'
+    elif klass == 'charged':
+        spd, rxd = rnd.choice(BLANK_PAIRS)
+    else:
+        spd, rxd = _rand_delims(rnd)
+    miss = f.get('miss')
+    n_ts = f.get('ts')
+    ts_same = n_ts == 'merge'
+    if ts_same:
+        n_ts = 2
+    if miss in ('ts_warn', 'ts_nowarn', 'ts_strict'):
+        n_ts = rnd.choice([1, 2])
+    if miss == 'ts_multi':
+        n_ts = 2
+    text, names, ts_names = _random_hand_text(rnd, spd, rxd, klass, n_ts=n_ts, tabs=f.get('tabs', rnd.random() < 0.1),
+                                              force=f.get('num'), n_re=f.get('n'), ts_fresh=miss is not None,
+                                              ts_same=ts_same)
+    cls = f.get('cls', rnd.choice(CLASSES))
     case = {'kind': 'hand', 'src': 'random', 'text': text, 'spd': spd, 'rxd': rxd, 'names': names,
-            'ring': rnd.random() < 0.25}
-    m = rnd.random()
-    if m < 0.2:
-        case['missing'] = ts_name if (ts_name is not None and rnd.random() < 0.5) else rnd.choice(names)
-        case['strict'] = rnd.random() < 0.6
+            'ring': rnd.random() < 0.25, 'cls': cls, 'spform': f.get('spform', 'list' if rnd.random() < 0.2 else 'dict'),
+            'notes': 'n' if 'notes' in f else None, 'forced': '%s=%s' % (what, val), 'n_ts': len(ts_names)}
+    if miss is None and rnd.random() < 0.2:
+        miss = rnd.choice(['rp', 'ts_warn', 'ts_nowarn', 'ts_strict', 'any'])
+    if miss is not None:
+        case['cls'] = 'Reaction' if miss in ('ts_warn', 'ts_nowarn', 'ts_multi') else cls
+        if miss in ('ts_warn', 'ts_nowarn', 'ts_multi', 'ts_strict') and ts_names:
+            # a TS species that is neither a reactant nor a product, so that only the TS is affected
+            only_ts = [n for n in ts_names]
+            case['missing'] = only_ts[0] if miss != 'ts_multi' else rnd.choice(only_ts)
+        else:
+            case['missing'] = rnd.choice(names)
+        case['strict'] = miss in ('rp', 'ts_strict') or (miss == 'any' and rnd.random() < 0.5)
+        case['warn'] = miss != 'ts_nowarn' and not (miss == 'any' and rnd.random() < 0.3)
     return case
 
 
-def _random_ring(rnd):
-    spd, rxd = rnd.choice([('.', '>>'), ('.', '>>'), ('+', '='), (' . ', ' >> ')])
-    lines, names = [], set()
+def _random_ring(rnd, i=0):
+    spd, rxd = [('.', '>>'), ('.', '>>'), ('+', '='), (' . ', ' >> ')][i % 4]
+    lines, names, ts_all = [], set(), []
     for _ in range(rnd.randint(1, 4)):
         if rnd.random() < 0.3:
             lines.append(rnd.choice(['', 'comment', 'species list', 'pathway 7']))
         else:
-            text, nms, _ = _random_hand_text(rnd, spd, rxd)
+            text, nms, ts_names = _random_hand_text(rnd, spd, rxd, 'prefix' if rnd.random() < 0.3 else 'quant')
             lines.append(text)
             names.update(nms)
-    return {'kind': 'ring', 'src': 'random', 'lines': lines, 'spd': spd, 'rxd': rxd, 'names': sorted(names)}
+            ts_all += ts_names
+    case = {'kind': 'ring', 'src': 'random', 'lines': lines, 'spd': spd, 'rxd': rxd, 'names': sorted(names)}
+    m = i % 6
+    if m == 1 and ts_all:                         # raise_error=False: the TS is dropped, the file is read
+        case.update(missing=rnd.choice(ts_all), strict=False, warn=rnd.random() < 0.5)
+    elif m == 3 and names:                        # an unknown species with raise_error=True
+        case.update(missing=rnd.choice(sorted(names)), strict=True, warn=True)
+    return case
 
 
-def _dec_str(units, places=4):
-    """units of 10^-places -> decimal text"""
-    s = '%d.%0*d' % (units // 10 ** places, places, units % 10 ** places)
-    return s.rstrip('0').rstrip('.') if '.' in s else s
+# ---- balance: exact rational bookkeeping on the generator side (fractions.Fraction)
+def _regroup(rnd, side, unit, allow_half):
+    """Another list of (coefficient, composition) with exactly the same element totals: coefficients
+    split, scaled against the composition (c * (k comp) = (c k) * comp, also with half counts),
+    zero entries dropped or added, order shuffled."""
+    out = []
+    for c, cp in side:
+        how = rnd.random()
+        cp = dict(cp)
+        if how < 0.3 and c >= 2 * unit:                       # split the coefficient
+            a = unit * rnd.randint(1, int(c / unit) - 1)
+            out += [(a, dict(cp)), (c - a, dict(cp))]
+        elif how < 0.5:                                        # (c k) * (comp / k)
+            k = rnd.choice([2, 3, 5])
+            if all(v % k == 0 for v in cp.values()):
+                out.append((c * k, {e: v / k for e, v in cp.items()}))
+            elif allow_half and k == 2:
+                out.append((c * 2, {e: v / 2 for e, v in cp.items()}))
+            else:
+                out.append((c, cp))
+        elif how < 0.7 and (c / unit) % 2 == 0:                # (c / 2) * (2 comp)
+            out.append((c / 2, {e: v * 2 for e, v in cp.items()}))
+        else:
+            cp = {e: v for e, v in cp.items() if v or rnd.random() < 0.5}
+            out.append((c, cp))
+    if len(out) >= 2 and rnd.random() < 0.3:                  # lump two species with equal coefficient
+        for a in range(len(out)):
+            for b in range(a + 1, len(out)):
+                if out[a][0] == out[b][0]:
+                    ca, cpa = out[a]
+                    cpb = out[b][1]
+                    out[a] = (ca, {e: cpa.get(e, 0) + cpb.get(e, 0) for e in set(cpa) | set(cpb)})
+                    del out[b]
+                    break
+            else:
+                continue
+            break
+    rnd.shuffle(out)
+    return out
 
 
-def _random_balance(rnd):
-    """Reactions that are balanced by construction (regrouping the same atoms with decimal
-    coefficients), perturbed ones, and independent random ones."""
+BAL_FORCE = ([('cls', c) for c in CLASSES] + [('mode', 'rat'), ('mode', 'dec'), ('float', True), ('nocomp', True),
+             ('ts', 'regroup'), ('ts', 'lump'), ('perturb', 'ts'), ('perturb', 'pr'), ('zero', True)])
+
+
+def _random_balance(rnd, i=0, depth=0):
+    """Reactions balanced by construction (regrouping the same atoms with fractional coefficients),
+    perturbed ones and independent random ones; coefficients exact decimals or exact rationals p/q."""
+    what, val = BAL_FORCE[i % len(BAL_FORCE)]
+    f = {what: val}
+    mode = f.get('mode', 'rat' if rnd.random() < 0.3 else 'dec')
+    if mode == 'rat':
+        q = rnd.choice([2, 3, 4, 6, 7, 8, 9, 12])
+        unit = Fraction(1, q)
+        top = 5 * q
+    else:
+        places = rnd.choice([1, 1, 2, 4])
+        unit = Fraction(1, 10 ** places)
+        q = 10 ** places
+        top = 5 * q
+    allow_half = f.get('float', rnd.random() < 0.2)
     els = rnd.sample(['C', 'H', 'O', 'N', 'Pt', 'Cl'], rnd.randint(1, 4))
 
     def comp():
-        c = [[e, rnd.choice([0, 1, 1, 2, 3, 4, 6, 12])] for e in rnd.sample(els, rnd.randint(1, len(els)))]
-        if all(n == 0 for _, n in c):
-            c[0][1] = 1
+        c = {e: Fraction(rnd.choice([0, 1, 1, 2, 3, 4, 6, 12])) for e in rnd.sample(els, rnd.randint(1, len(els)))}
+        if f.get('zero') and len(c) > 1:
+            c[sorted(c)[0]] = Fraction(0)
+        if all(v == 0 for v in c.values()):
+            c[sorted(c)[0]] = Fraction(1)
         return c
-    places = rnd.choice([1, 1, 2, 4])
-    unit = 10 ** (4 - places)
 
-    def coef():                                   # in units of 10^-4, value <= 5
-        return rnd.randint(1, 5 * 10 ** places) * unit
-    re_side = [[coef(), comp()] for _ in range(rnd.randint(1, 3))]
-    mode = rnd.random()
-    pr_side = []
-    if mode < 0.75:
-        for c, cp in re_side:                     # regroup every reactant term on the product side
-            how = rnd.random()
-            if how < 0.35 and c >= 2 * unit:      # split the coefficient
-                a = rnd.randint(1, c // unit - 1) * unit
-                pr_side += [[a, [list(x) for x in cp]], [c - a, [list(x) for x in cp]]]
-            elif how < 0.7:                       # scale: c * (k * comp)  ->  (c * k) * comp
-                k = rnd.choice([2, 3, 5, 7])
-                pr_side.append([c * k, [list(x) for x in cp]])
-                cp[:] = [[e, n * k] for e, n in cp]
-            else:
-                pr_side.append([c, [[e, n] for e, n in cp if n or rnd.random() < 0.5]])
-        rnd.shuffle(pr_side)
-        pr_side = pr_side[:4] if len(pr_side) <= 4 else None
-    if pr_side is None or mode >= 0.75 or not pr_side:
-        pr_side = [[coef(), comp()] for _ in range(rnd.randint(1, 3))]
+    def coef():
+        return unit * rnd.randint(1, top)
+    re_side = [(coef(), comp()) for _ in range(rnd.randint(1, 3))]
+    if rnd.random() < 0.75 or 'ts' in f or 'perturb' in f:
+        pr_side = _regroup(rnd, re_side, unit, allow_half)
+    else:
+        pr_side = [(coef(), comp()) for _ in range(rnd.randint(1, 3))]
     ts_side = []
-    if rnd.random() < 0.4:
-        ts_side = [[c, [list(x) for x in cp]] for c, cp in (re_side if rnd.random() < 0.5 else pr_side)]
-        if len(ts_side) > 1 and rnd.random() < 0.5:      # one lumped transition state species
-            tot = {}
-            for c, cp in ts_side:
-                for e, n in cp:
-                    tot[e] = tot.get(e, 0) + c * n
-            if all(v % unit == 0 and v // unit <= 999 for v in tot.values()):
-                ts_side = [[unit, [[e, v // unit] for e, v in tot.items()]]]
-    if rnd.random() < 0.3:                        # perturb one count or one coefficient
-        sd = rnd.choice([s for s in (re_side, pr_side, ts_side) if s])
-        t = rnd.choice(sd)
-        if rnd.random() < 0.5:
-            t[1][0][1] += 1
+    ts_how = f.get('ts', rnd.choice([None, None, None, 'regroup', 'lump', 'copy']))
+    if 'perturb' in f and f['perturb'] == 'ts':
+        ts_how = 'regroup'
+    if ts_how == 'regroup':
+        ts_side = _regroup(rnd, rnd.choice([re_side, pr_side]), unit, allow_half)
+    elif ts_how == 'copy':
+        ts_side = [(c, dict(cp)) for c, cp in rnd.choice([re_side, pr_side])]
+    elif ts_how == 'lump':
+        tot = {}
+        for c, cp in re_side:
+            for e, n in cp.items():
+                tot[e] = tot.get(e, 0) + c * n
+        ts_side = [(unit, {e: v / unit for e, v in tot.items()})]
+    perturb = f.get('perturb', rnd.choice(['re', 'pr', 'ts']) if rnd.random() < 0.3 else None)
+    if perturb:
+        sd = {'re': re_side, 'pr': pr_side, 'ts': ts_side}[perturb] or pr_side
+        j = rnd.randrange(len(sd))
+        c, cp = sd[j]
+        if rnd.random() < 0.5 and cp:
+            e = rnd.choice(sorted(cp))
+            cp = dict(cp)
+            cp[e] += 1
+            sd[j] = (c, cp)
         else:
-            t[0] += unit
-    ok = all(0 < c <= 200000 and all(0 <= n <= 999 for _, n in cp)
-             for sd in (re_side, pr_side, ts_side) for c, cp in sd)
+            sd[j] = (c + unit, cp)
+    sides = {'re': re_side, 'pr': pr_side, 'ts': ts_side}
+    ok = all(len(sd) <= 4 and all(0 < c <= 25 and all(0 <= n <= 999 and (n * 4).denominator == 1
+                                                        for n in cp.values()) for c, cp in sd)
+             for sd in sides.values())
     if not ok:
-        return _random_balance(rnd)
+        if depth > 50:
+            raise core.MachineryError('balance generator cannot satisfy its bounds')
+        return _random_balance(rnd, i, depth + 1)
+    as_float = rnd.random() < 0.15 or bool(f.get('float'))
+    nocomp = f.get('nocomp', rnd.random() < 0.02)
 
-    def out(sd):
-        return [[_dec_str(c), cp] for c, cp in sd]
-    return {'kind': 'balance', 'src': 'random', 're': out(re_side), 'pr': out(pr_side), 'ts': out(ts_side),
-            'hasTS': bool(ts_side)}
+    def cnt(n):
+        if n.denominator != 1:
+            return float(n)
+        return float(n) if (as_float and rnd.random() < 0.5) else int(n)
+
+    def out(sd, tag):
+        res = []
+        for j, (c, cp) in enumerate(sd):
+            p, qq = (c.numerator * (q // c.denominator), q) if q % c.denominator == 0 \
+                else (c.numerator, c.denominator)
+            has = not (nocomp and tag == 'pr' and j == 0)
+            res.append([[p, qq], [[e, cnt(n)] for e, n in sorted(cp.items())], has])
+        return res
+    return {'kind': 'balance', 'src': 'random', 're': out(re_side, 're'), 'pr': out(pr_side, 'pr'),
+            'ts': out(ts_side, 'ts'), 'hasTS': bool(ts_side), 'cls': f.get('cls', rnd.choice(CLASSES)),
+            'forced': '%s=%s' % (what, val)}
 
 
-def _random_formula(rnd):
+def _random_formula(rnd, i=0):
     pool = rnd.sample(ELEMENT_SYMBOLS, rnd.randint(1, 5))
     items = []
-    for _ in range(rnd.randint(1, 8)):
+    n_items = [1, 2, 8, 5][i % 4] if i % 3 == 0 else rnd.randint(1, 8)
+    for j in range(n_items):
         m = rnd.random()
         n = 0 if m < 0.3 else rnd.randint(1, 9) if m < 0.7 else rnd.randint(10, 999)
+        if j == 0 and i % 5 == 0:
+            n = [1, 999, 0, 10, 100][(i // 5) % 5]
         items.append([rnd.choice(pool), n])
     return {'kind': 'formula', 'src': 'random', 'items': items}
 
@@ -559,8 +861,11 @@ def _tags(case):
     if case['kind'] == 'print':
         cs = [float(c) for k in ('re', 'ts', 'pr') for _, c in case['r'][k]]
         t['near_integer_inexact'] = any(c != round(c) and abs(c - round(c)) < 1e-9 for c in cs)
-    if case['kind'] == 'balance':
-        t['decimal_coefficients'] = any('.' in c for k in ('re', 'ts', 'pr') for c, _ in case[k])
+    if case['kind'] in ('hand', 'ring'):
+        t['raise_error'] = bool(case.get('strict', True))
+        t['raise_warning'] = bool(case.get('warn', True))
+        t['species_unknown'] = bool(case.get('missing'))
+        t['ts_species'] = case.get('n_ts', 'n/a')
     return t
 
 
@@ -578,7 +883,7 @@ def _nontrivial(case):
 
 
 def _signature(case):
-    return json.dumps({k: v for k, v in case.items() if k not in ('expect', 'balanced', 'src')},
+    return json.dumps({k: v for k, v in case.items() if k not in ('expect', 'balanced', 'src', 'forced')},
                       sort_keys=True)
 
 
@@ -587,17 +892,20 @@ _REPLAY_CLAUSE = {'print': 'ReplayRoundTrip', 'hand': 'ReplayParse', 'ring': 'Re
 
 
 def _vacuity(ctx, cases, traces):
-    """Run the trace spec once more on a sample that contains every bucket of cases and read
-    register 2 (situation counts): a clause whose antecedent never held would be vacuous."""
+    """Run the trace spec once more (VACUITY=1) on a sample that contains every forced feature and
+    every bucket of cases and read register 2 (situation counts): a clause or an input class whose
+    situation never occurred would be vacuous."""
     buckets = {}
     for tid, case in enumerate(cases):
-        key = (case['kind'], case.get('src'), 'missing' in case, case.get('strict', True),
-               bool(case.get('hasTS')), bool(case.get('ring')))
-        buckets.setdefault(key, []).append(tid)
+        keys = [(case['kind'], case.get('src'), case.get('forced')),
+                (case['kind'], case.get('src'), 'missing' in case, case.get('strict', True), case.get('warn', True),
+                 bool(case.get('hasTS')), bool(case.get('ring')), case.get('cls'))]
+        for key in keys:
+            buckets.setdefault(key, []).append(tid)
     pick = set()
     for tids in buckets.values():
-        pick.update(tids[:40])
-    pick.update(range(0, len(cases), max(1, len(cases) // 800)))
+        pick.update([t for t in tids if traces[t][1]][:6])
+    pick.update(range(0, len(cases), max(1, len(cases) // 500)))
     d = tempfile.mkdtemp(prefix='c14_vac_')
     try:
         path = os.path.join(d, 'trace.ndjson')
@@ -607,10 +915,9 @@ def _vacuity(ctx, cases, traces):
                 for ev in traces[tid][1]:
                     f.write(json.dumps(dict(ev, tid=tid), separators=(',', ':')) + '\n')
                     n += 1
-        r = core.run_tlc('Trace_RxnString', 'Trace', env={'TRACE_FILE': path, 'VACUITY': '1'}, workers=1, timeout=1500,
-                         metadir=os.path.join(d, 'meta'))
+        r = core.run_tlc('Trace_RxnString', 'Trace', env={'TRACE_FILE': path, 'VACUITY': '1'}, workers=1,
+                         timeout=1500, metadir=os.path.join(d, 'meta'))
     finally:
-        import shutil
         shutil.rmtree(d, ignore_errors=True)
     seen = None
     for pv in r.prints():
@@ -627,7 +934,7 @@ def _vacuity(ctx, cases, traces):
 def _run_models(ctx):
     """(D): the design models side by side; variants that reproduce a defect must be rejected."""
     th = not ctx.quick
-    jobs = [('MC_RxnString', 'MC_RxnString_thorough' if th else 'MC_RxnString', True, 8),
+    jobs = [('MC_RxnString', 'MC_RxnString_thorough' if th else 'MC_RxnString', True, 6),
             ('MC_RxnString', 'MC_RxnString_trunc', False, 2),
             ('MC_Formula', 'MC_Formula_thorough' if th else 'MC_Formula', True, 4),
             ('MC_Formula', 'MC_Formula_overwrite', False, 1),
@@ -661,33 +968,38 @@ def _run_models(ctx):
 
 def run(ctx):
     ctx.coverage['rule'] = (
-        'a case is one of: print (a reaction with 1-4 species per side, coefficients, optional TS, '
-        'delimiters, format .0f-.3f, blanks; printed, padded, read back and read through a RING file), '
-        'hand (a hand-written reaction string with integer/decimal/omitted coefficients, repeated and '
-        'unknown species), ring (a file of several lines), balance (a reaction with compositions and '
-        'decimal coefficients) or formula (a sequence of symbol[count] items). TLC cases are the complete '
-        'bounded families of RxnCases/Balance/Formula with TLC-computed expectations; random cases are drawn '
-        'from the quantifier of the property. Non-trivial: a print case has a coefficient other than 1, a '
-        'hand case a written coefficient, a ring case a reaction line; distinct by the full case content')
+        'a case is one of: print (a reaction of Reaction/ChemkinReaction/SurfaceReaction with 1-4 species per '
+        'side, coefficients, a transition state of 0-2 species, delimiters, a stoich_format of '
+        + ' '.join(repr(f) for f in FORMATS) + ', stoich_space, include_TS, key, stoichiometry given as '
+        'list/tuple/ndarray of float/int/numpy scalars, blanks; printed by to_string or str(), padded, read '
+        'back from a species dict or list and read through a RING file), hand (a hand-written reaction string '
+        'with integer/decimal/omitted coefficients, repeated and unknown species, raise_error / raise_warning), '
+        'ring (a file of several lines), balance (a reaction with compositions, exact decimal or rational '
+        'coefficients, int or float counts, species without composition) or formula (a sequence of '
+        'symbol[count] items). TLC cases are the complete bounded families of RxnCases/Balance/Formula with '
+        'TLC-computed expectations; random cases are drawn from the quantifier of the property, the i-th one '
+        'with one documented option/format/delimiter/class/container/name class forced in rotation. '
+        'Non-trivial: a print case has a coefficient other than 1, a hand case a written coefficient, a ring '
+        'case a reaction line; distinct by the full case content')
     if ctx.replay_case is not None:
         cases = [ctx.replay_case['case']]
     else:
         data = _run_models(ctx)
         rnd = random.Random(ctx.seed)
         cases = [_rxn_from_tlc(c, k) for k, c in enumerate(data['rxn'])]
-        cases += [_bal_from_tlc(c) for c in data['balance']]
+        cases += [_bal_from_tlc(c, k) for k, c in enumerate(data['balance'])]
         cases += [_for_from_tlc(c) for c in data['formula']]
         ctx.coverage['tlc_cases'] = {k: len(v) for k, v in data.items()}
-        for _ in range(ctx.pick(2000, 40000)):
-            cases.append(_random_print(rnd))
-        for _ in range(ctx.pick(2000, 40000)):
-            cases.append(_random_hand(rnd))
-        for _ in range(ctx.pick(400, 6000)):
-            cases.append(_random_ring(rnd))
-        for _ in range(ctx.pick(2500, 50000)):
-            cases.append(_random_balance(rnd))
-        for _ in range(ctx.pick(1500, 30000)):
-            cases.append(_random_formula(rnd))
+        for i in range(ctx.pick(2000, 40000)):
+            cases.append(_random_print(rnd, i))
+        for i in range(ctx.pick(2000, 40000)):
+            cases.append(_random_hand(rnd, i))
+        for i in range(ctx.pick(400, 6000)):
+            cases.append(_random_ring(rnd, i))
+        for i in range(ctx.pick(2500, 50000)):
+            cases.append(_random_balance(rnd, i))
+        for i in range(ctx.pick(1500, 30000)):
+            cases.append(_random_formula(rnd, i))
     results = core.pmap(_safe_execute, cases)
     traces = []
     kinds = {}
@@ -731,11 +1043,17 @@ def run(ctx):
     ctx.violations[:] = [v for _, _, v in sorted(zip(rank, range(len(rank)), ctx.violations),
                                                  key=lambda t: (t[0], t[1]))]
     ctx.assume('coefficients are read as the decimal text of repr(float) (exact to 18 fractional digits); '
-               'range 0.001 <= c <= 30, formats .0f-.3f')
-    ctx.assume('species names contain neither delimiter, do not start with a digit or "."; delimiters are '
-               'not substrings of each other; a delimiter containing "." is used with integer coefficients only')
+               'range 0.001 <= c <= 30; stoich_format fixed-point, general or empty (no exponent notation: '
+               'the grammar of from_string has none)')
+    ctx.assume('coefficients in the grey zone of numpy.isclose(c, round(c)) (further than 1e-9 from an integer '
+               'yet within 1e-8 + 1e-5 n) are not generated: the printer documents that it drops their decimals')
+    ctx.assume('species names contain no blank and neither delimiter, do not start with a digit or "."; '
+               'delimiters are not substrings of each other; a delimiter containing "." is used with integer '
+               'coefficients only; names with +, -, =, . are used with blank-surrounded delimiters')
     ctx.assume('printed reactions have distinct species within a side')
-    ctx.assume('balance: coefficients with at most 4 decimals, element counts 0-999, totals compared exactly')
+    ctx.assume('balance: coefficients exact decimals (<= 4 places) or rationals p/q (q <= 12) handed over as '
+               'the nearest double, counts 0-999 with at most 2 decimals, totals compared exactly; a species '
+               'without a composition must not be accepted')
 
 
 if __name__ == '__main__':
